@@ -260,13 +260,31 @@ REG["C09"] = {
         "which Rule struct a kind name makes (registry) is read, not verified: equal -> EqualRule (text + LF), no-eol -> EqualNoEolRule (text), escaped -> EscapedRule (decoded expression, LF disregarded) "
         "with the matching semantics proved under C04; axiom_default_registry (equal, escaped, no-eol registered, names are plain words)",
         "rule.rs::ends_in_modifier (static regular expression) trusted as has_proper_mod; extract_exit_code (regex) uninterpreted with axiom_exit_code_shape (an accepted line ends in `]`)",
-        "precondition: the command is not empty (generate_testcase_expression indexes the first line; a test case with an empty command comes from a `$ ` line with nothing after it)",
         "lossy_string!, format!/formatln! helpers (R8'), String::push_str, int Display (int_text), byte-string literal b\"\\n\" (R47)",
     ],
     "not_decided": ["how LineParser classifies the written body lines and the document formats around them (fences, Cram indentation): BOUNDED stand-in only — verif-replay c09 N runs the full round trip "
                     "create -> parse -> validate on the real crate for every output over {a, space, (, ?, ), LF, TAB} up to N bytes plus ~230 outputs built from lines that look like test syntax, "
                     "exit codes 0 and 3, both formats, both escapers (quick N=3: 5 048 cases, thorough N=5). It reports two classes that are listed as known findings (below)",
                     "the `update` / `--convert` paths beyond generate_testcase (C10 decides the Markdown update generator's block structure)", "stderr, combined output streams"],
+}
+
+REG["C19"] = {
+    "units": ["prettyspaces"],
+    "thorough_extra": ["replay"],
+    "quick_extra": ["replay"],
+    "scope": "PARTIAL (small) — the one place of the renderers that slices a line at a computed byte offset: space_start_index(line) returns the byte length of the line without its "
+             "trailing whitespace, which is a char boundary of the line, and the two slices of higlight_tailing_spaces (`&input[0..index]`, `&input[index..]`) satisfy Rust's panic condition "
+             "(char boundaries, order, bounds) for every such index: the pretty renderer cannot panic there for any line (the pinned tree did, for trailing NBSP / ideographic space).",
+    "assumptions": [
+        "str::trim_end returns a prefix of its argument (assume_specification); str::len is the UTF-8 byte length; __str_slice's precondition is Rust's slicing panic condition",
+        "the enclosing generic method <T as TailingSpacesHighlighter>::higlight_tailing_spaces is not extracted: its two slicing expressions are (@expr), under the precondition that `index` is "
+        "what space_start_index returns for the same `input` (read from the two preceding statements)",
+    ],
+    "not_decided": ["everything else of C19 — that each renderer returns a rendering for every list of outcomes, that pretty and diff contain every unmatched expectation and unexpected line, that json "
+                    "and yaml are well-formed with one entry per outcome, no failure section for a passing test (console::style, width arithmetic over format!, serde): BOUNDED stand-in only — "
+                    "verif-replay c19 N renders, with all five renderers, every single outcome and every window of up to N outcomes from 15 outputs (empty, trailing space / NBSP / ideographic space / "
+                    "em space / TAB, invalid UTF-8, ANSI, emoji, CR LF, no final LF, blank lines) x 7 expectation lists x exit codes 0 / 2 plus Timeout and Skipped verdicts: no panic, no error, json / "
+                    "yaml well-formed with one entry per outcome, empty diff for passing tests (quick N=2: 1 263 renderings; thorough N=4)"],
 }
 
 VX_NOTE = ("Trusted: Verus/Z3; the extractor's rewrite rules (DESIGN §4.2, each firing is logged in evidence.rewrites_fired); "
@@ -317,6 +335,10 @@ LEVELS["C09"] = {"category": "proof", "technique": "Verus postconditions on extr
     "text": "Unbounded proof over all outcomes: what is written, and that every written output line reads back as an expectation matching exactly that line. Partial: body-line classification by "
             "LineParser and the document formats only by a bounded end-to-end enumeration labelled as such (with two known findings).",
     "design_ref": "DESIGN.md §5 C09", "note": VX_NOTE}
+LEVELS["C19"] = {"category": "proof", "technique": "Verus postcondition on extracted space_start_index and the two slicing expressions of higlight_tailing_spaces (char-boundary theory of prelude_str.rs)",
+    "text": "Unbounded proof over all lines that the trailing-whitespace highlighter of the pretty renderer slices at char boundaries (no panic). A small part of C19; the rest only by a bounded "
+            "enumeration over all five renderers, labelled as such.",
+    "design_ref": "DESIGN.md §5 C19", "note": VX_NOTE}
 LEVELS["C10"] = {"category": "proof", "technique": "Verus postconditions on extracted MarkdownUpdateGenerator::generate_update and has_command over the imported tokenizer contract; lemmas over upd_fold",
     "text": "Unbounded proof over all documents (as sequences of lines) and all outcome lists: what update writes, token by token; lines outside scrut blocks kept in order, blocks keep language, "
             "configuration and comments, nothing truncated, no index out of bounds. Partial: idempotence / re-parsing of the output only by a bounded enumeration labelled as such.",
@@ -335,6 +357,5 @@ NOT_APPLICABLE = [
     {"property_id": "C15", "reason": "decision is interleaved with process spawning/TempDir/Instant inside execute_all; a modular contract would need almost the whole body behind external_body stubs (DESIGN §10)"},
     {"property_id": "C17", "reason": "reader is serde_yaml (external), writer is format!; an inverse law needs the parser's semantics (DESIGN §10)"},
     {"property_id": "C18", "reason": "filesystem effects and Drop of tempfile::TempDir across process exits; outside any function contract (DESIGN §10)"},
-    {"property_id": "C19", "reason": "console::style, width arithmetic over format!, serde; the two helpers in reach (space_start_index, Decorator::output_line_number) have callers whose preconditions are out of reach (DESIGN §10)"},
     {"property_id": "C20", "reason": "commands/test.rs + main.rs over real executions; what matters is the executor's interaction with the OS (DESIGN §10)"},
 ]
